@@ -1,18 +1,20 @@
 INIT Init
 NEXT Next
 CONSTANTS
-  NChunks = 1
+  NChunks = 2
   CS = 2
   NGets = 2
   Ranges <- AllRanges
   Plays <- NoPlay
   Forces <- NoForce
   MaxInv = 1
-  MaxTrim = 0
-  MaxFail = 0
+  MaxTrim = 1
+  MaxFail = 1
   Age <- AllOld
-  FixAwait = FALSE
-  FixPublish = FALSE
+  FixAwait = TRUE
+  FixPublish = TRUE
+  FixInvMax = FALSE
+  SeqInv = TRUE
   MaxOps = 0
 VIEW View
 INVARIANTS TypeOK Placement Produced Freshness NoDoubleSend NoLostWakeup AwaitersServed Accounting LoadingCount
